@@ -233,6 +233,14 @@ func c07Alphabet(s *sessSys) []sessReq {
 					p[1].UEAlloc, p[1].UEIP = false, p[0].UEIP
 				}
 				add("est-choose", sessReq{sReq: sReq{Kind: kEst, Conn: c, CPSEID: uint64(10 + n), CreatePDR: p, CreateFAR: f, CreateQER: q}})
+				if c == 0 && !s.in.cfg.P4 {
+					// more rules than the handlers' initial slice capacity (12 Create PDRs), the CHOOSE rule first
+					pm := append([]sPDR{}, p...)
+					for k := 0; k < 5; k++ {
+						pm = append(pm, sdfPDRs(uint16(11+2*k), p[0].UEIP, uint32(0x900+n), uint32(40+k), fmt.Sprintf("permit out udp from 10.9.%d.0/24 53 to assigned", k), 1, 2, p[0].QERs)...)
+					}
+					add("est-choose-12pdrs", sessReq{sReq: sReq{Kind: kEst, Conn: c, CPSEID: uint64(10 + n), CreatePDR: pm, CreateFAR: f, CreateQER: q}})
+				}
 			} else {
 				p, f, q := up4RuleSet(fmt.Sprintf("16.0.%d.%d", c, n+1), uint32(0x100+n), c04Peers[0], "", 1, 0)
 				add("est-basic", sessReq{sReq: sReq{Kind: kEst, Conn: c, CPSEID: uint64(10 + n), CreatePDR: p, CreateFAR: f, CreateQER: q}})
@@ -245,6 +253,8 @@ func c07Alphabet(s *sessSys) []sessReq {
 				// terminations by UE address and application, under which a second plain uplink rule is the first one)
 				p1 := x.pdr(1).sPDR
 				add("mod-create-choose-pdr", sessReq{sReq: sReq{Kind: kMod, Conn: c, CreatePDR: []sPDR{{ID: 8, Prec: 90, Src: ie.SrcInterfaceAccess, FTEID: &sFTEID{Choose: true}, UEIP: p1.UEIP, Decap: true, FAR: 1, QERs: p1.QERs}}}, Sess: x.Idx})
+				// ... and the same request made unacceptable by a Remove FAR that names no rule
+				add("mod-create-choose-pdr-refused", sessReq{sReq: sReq{Kind: kMod, Conn: c, CreatePDR: []sPDR{{ID: 8, Prec: 90, Src: ie.SrcInterfaceAccess, FTEID: &sFTEID{Choose: true}, UEIP: p1.UEIP, Decap: true, FAR: 1, QERs: p1.QERs}}, RemoveFAR: []uint32{99}}, Sess: x.Idx})
 			}
 			if c == 0 && x.pdr(1) != nil && x.pdr(1).ChoseTEID {
 				// the PDR that owns the UP-chosen TEID is removed (accepted), or removed by a request that is then refused
